@@ -88,33 +88,29 @@ pub fn matmul_integer(case: &Case) -> RefResult {
         if z.dt != a.dt {
             return invalid("a_zero_point type");
         }
-        if !(z.rank() == 0 || (z.rank() == 1 && z.shape[0] == 1)) {
-            if !(a.rank() == 2 && z.rank() == 1 && z.shape[0] == a.shape[0]) {
-                return invalid("a_zero_point shape");
-            }
+        if z.rank() != 0 && !(a.rank() == 2 && z.rank() == 1 && z.shape[0] == a.shape[0]) {
+            return invalid("a_zero_point shape");
         }
     }
     if let Some(z) = bzp {
         if z.dt != b.dt {
             return invalid("b_zero_point type");
         }
-        if !(z.rank() == 0 || (z.rank() == 1 && z.shape[0] == 1)) {
-            if !(b.rank() == 2 && z.rank() == 1 && z.shape[0] == b.shape[1]) {
-                return invalid("b_zero_point shape");
-            }
+        if z.rank() != 0 && !(b.rank() == 2 && z.rank() == 1 && z.shape[0] == b.shape[1]) {
+            return invalid("b_zero_point shape");
         }
     }
     let af = |idx: &[usize], v: f64| -> f64 {
         match azp {
             None => v,
-            Some(z) if z.numel() == 1 => v - z.data[0],
+            Some(z) if z.rank() == 0 => v - z.data[0],
             Some(z) => v - z.data[idx[idx.len() - 2]],
         }
     };
     let bf = |idx: &[usize], v: f64| -> f64 {
         match bzp {
             None => v,
-            Some(z) if z.numel() == 1 => v - z.data[0],
+            Some(z) if z.rank() == 0 => v - z.data[0],
             Some(z) => v - z.data[idx[idx.len() - 1]],
         }
     };
